@@ -20,21 +20,19 @@ func init() {
 		assume:  []string{"the call hook reports every call port (checked by the selftest: dropping it makes the replay disagree)", "generated programs stay inside the vocabulary modelled by Engine.tla"},
 		trusted: []string{"TLC", "Engine.tla as the reference semantics", "harness renderer/canonicaliser (jt)"},
 		run: func(c *checkCtx) {
-			cfg := "GenCut_quick.cfg"
-			if c.tier == "thorough" {
-				cfg = "GenCut_thorough.cfg"
-			}
-			r := c.mcHolds("GenCut", cfg, tlcOpts{})
-			if r.ncases == 0 {
-				infra("GenCut produced no cases")
-			}
-			cases, results := c.replay("engine", r.cases, replayOpts{})
-			c.judge("engine", cases, results, func(cs, res map[string]J) string {
-				if in, _ := res["input"].(string); strings.Contains(in[strings.Index(in, "p(V1)"):], "!") {
-					return in
+			for _, cfg := range []string{"GenCut_" + c.tier + ".cfg", "GenCut_" + c.tier + "2.cfg"} {
+				r := c.mcHolds("GenCut", cfg, tlcOpts{})
+				if r.ncases == 0 {
+					infra("GenCut produced no cases")
 				}
-				return ""
-			})
+				cases, results := c.replay("engine", r.cases, replayOpts{})
+				c.judge("engine", cases, results, func(cs, res map[string]J) string {
+					if in, _ := res["input"].(string); strings.Contains(in[strings.Index(in, "p(V1)"):], "!") {
+						return in
+					}
+					return ""
+				})
+			}
 			c.engineTV(tvN(c), "cut")
 			c.exhaustive = true
 		},
